@@ -240,7 +240,11 @@ def run_histories(ctx, histories, label, stats, known):
     batches = [histories[i:i + 24] for i in range(0, len(histories), 24)]
     res = C.pool_map(run_batch, batches) if len(batches) > 1 else [run_batch(b) for b in batches]
     rrc = max([r[0] for r in res] + [0], key=abs)
-    rout = "".join(r[1] for r in res)
+    # the harness prints the `init` line of the NEXT engine after every `reset`: drop what follows a batch's last reset
+    def upto_last_reset(text):
+        i = text.rfind("\nreset\n")
+        return text[: i + len("\nreset\n")] if i >= 0 else text
+    rout = "".join(upto_last_reset(r[1]) for r in res)
     rerr = "".join(r[2][-800:] for r in res if r[0] != 0)
     rh = C.split_on(rout.splitlines(), "reset")
     inits = []
